@@ -314,7 +314,7 @@ def r3(case, rec):
                          additional_gammas=list(g['add']), cpus=1)
     mu, sigma, rho = case['pdf']['params']
     p2d, theta = case['p2d'], case['theta']
-    rec.case(case, 0 < p2d < 1, ['p2d'])
+    rec.case(case, 0 < p2d < 1, ['p2d', 'point-masses' if case['grid']['add'] else 'no-point-mass'])
     with dadi_call('DFE.mixture'):
         got = np.asarray(np.ma.getdata(DFE.mixture([mu, sigma, rho, p2d], None, cache1, cache2, PDFs.lognormal, PDFs.biv_lognormal, theta, None)), float)
     with dadi_call('integrate'):
@@ -327,6 +327,28 @@ def r3(case, rec):
     neutral = np.asarray(np.ma.getdata(m2([0.7, 0, 0], None, None)), float)
     e1, _ = Q.integrate_1d(gpos, S, neutral, 'lognormal', [mu, sigma], theta)
     require_close(f1, e1, 1e-6, '1-D component of the mixture vs independent quadrature', rec, key='mixture 1d', atol=1e-7 * theta * np.abs(S).max())
+    # mixtures with point masses of positive selection (need a cached positive gamma)
+    add = g['add']
+    if add:
+        from dadi.DFE import Cache2D_mod
+        gp1, gp2 = add[0], add[-1]
+        p1, p2 = case['ppos1'], case['ppos2']
+        with dadi_call('mixture_symmetric_point_pos'):
+            ms = np.asarray(np.ma.getdata(DFE.mixture_symmetric_point_pos([mu, sigma, rho, p1, gp1, p2d], None, cache1, cache2,
+                                                                          PDFs.lognormal, PDFs.biv_lognormal, theta)), float)
+        with dadi_call('components of mixture_symmetric_point_pos'):
+            a1 = np.asarray(np.ma.getdata(cache1.integrate_point_pos([mu, sigma, p1, gp1], None, PDFs.lognormal, theta, Npos=1)), float)
+            a2 = np.asarray(np.ma.getdata(cache2.integrate_point_pos([mu, sigma, rho, p1, gp1, p1, gp1], None, PDFs.biv_lognormal, theta, rho=rho)), float)
+        require(np.isfinite(ms).all(), 'mixture_symmetric_point_pos returned non-finite entries')
+        require_close(ms, (1 - p2d) * a1 + p2d * a2, 1e-12, 'mixture_symmetric_point_pos = (1-p2d) x 1-D with point mass + p2d x 2-D with equal point masses',
+                      rec, key='mixture symmetric point')
+        with dadi_call('mixture_point_pos'):
+            mp_ = np.asarray(np.ma.getdata(Cache2D_mod.mixture_point_pos([mu, sigma, rho, p1, gp1, p2, gp2, p2d], None, cache1, cache2,
+                                                                        PDFs.lognormal, PDFs.biv_lognormal, theta)), float)
+        with dadi_call('components of mixture_point_pos'):
+            b2 = np.asarray(np.ma.getdata(cache2.integrate_point_pos([mu, sigma, rho, p1, gp1, p2, gp2], None, PDFs.biv_lognormal, theta, rho=rho)), float)
+        require_close(mp_, (1 - p2d) * a1 + p2d * b2, 1e-12, 'mixture_point_pos = (1-p2d) x 1-D with point mass + p2d x 2-D with the two point masses',
+                      rec, key='mixture point')
 
 
 @st.composite
